@@ -120,11 +120,11 @@ def run_convert(case, drv) -> Outcome:
             qr = torch.atleast_2d(Rr.as_quat()).double()
             mr = Rr.as_matrix().double()
             eye = torch.eye(3, dtype=torch.float64)
-            if float((qr.norm(dim=-1) - 1).abs().max()) > 1e-9:
+            if float((qr.norm(dim=-1) - 1).abs().nan_to_num(nan=float('inf')).max()) > 1e-9:
                 viol = viol or v('from_matrix-unit', f'from_matrix of a roughly orthogonal matrix (perturbation {pert}) stores a quaternion of norm {qr.norm(dim=-1).tolist()}')
-            elif float((mr @ mr.transpose(-1, -2) - eye).abs().max()) > 1e-9 or float((torch.linalg.det(mr) - 1).abs().max()) > 1e-9:
+            elif float((mr @ mr.transpose(-1, -2) - eye).abs().nan_to_num(nan=float('inf')).max()) > 1e-9 or float((torch.linalg.det(mr) - 1).abs().nan_to_num(nan=float('inf')).max()) > 1e-9:
                 viol = viol or v('from_matrix-orthogonal', f'from_matrix of a roughly orthogonal matrix (perturbation {pert}) is not a proper rotation')
-            elif float((mr - m).abs().max()) > 20 * pert:
+            elif float((mr - m).abs().nan_to_num(nan=float('inf')).max()) > 20 * pert:
                 viol = viol or v('from_matrix-near', f'from_matrix of a roughly orthogonal matrix (perturbation {pert}) is {float((mr - m).abs().max()):.2e} away from it')
         rv = torch.as_tensor(S.as_rotvec(degrees=deg))
         if not rmat(Rotation.from_rotvec(rv, degrees=deg).as_matrix(), m, 1e-8):
